@@ -347,6 +347,7 @@ func canonicalPadding(s []byte, ns []byte, ver uint8) bool {
 }
 
 func (c *Ctx) squareCase(sc sqCase) {
+	defer c.recoverCase()
 	c.newCase()
 	c.setClass(sc.class)
 	txs := rawList(sc.txs)
@@ -1079,276 +1080,279 @@ func occupied(sq square.Square) int {
 func streamBHist(c *Ctx) {
 	nh := c.n(700, 4000)
 	for i := 0; i < nh; i++ {
-		c.newCase()
-		sc := c.genSquareCase([]int{1, 2, 2, 4, 4, 8, 8, 16})
-		c.setClass(sc.class)
-		c.goOnly = false
-		b, err := square.NewBuilder(sc.max, sc.thr)
-		c.emit(fmt.Sprintf("b new %d %d", sc.max, sc.thr), okErr(err))
-		if err != nil {
-			continue
-		}
-		var accepted []genTx
-		est := refEst{}
-		desc := fmt.Sprintf("max=%d thr=%d ", sc.max, sc.thr)
-		sawRefusal, exportBetween, sawExport := false, false, false
-		fail := func(prop, what string) {
-			c.violate(prop, sc.class, what+" (history: "+trunc(desc, 300)+")", "", c.caseOps)
-		}
-		// what a fresh builder fed the appends accepted so far answers (reference for the queries)
-		freshNow := func() *square.Builder {
-			f, _ := square.NewBuilder(sc.max, sc.thr)
-			for _, t := range accepted {
-				if t.noBlobs {
-					f.AppendBlobTx(&tx.BlobTx{Tx: t.inner})
-				} else if t.isBlob {
-					btx, _, _ := tx.UnmarshalBlobTx(t.raw)
-					f.AppendBlobTx(btx)
-				} else {
-					f.AppendTx(t.raw)
-				}
+		func() {
+			defer c.recoverCase()
+			c.newCase()
+			sc := c.genSquareCase([]int{1, 2, 2, 4, 4, 8, 8, 16})
+			c.setClass(sc.class)
+			c.goOnly = false
+			b, err := square.NewBuilder(sc.max, sc.thr)
+			c.emit(fmt.Sprintf("b new %d %d", sc.max, sc.thr), okErr(err))
+			if err != nil {
+				return
 			}
-			return f
-		}
-		query := func() {
-			switch c.rng.Intn(5) {
-			case 0:
-				sq, out := safeExport(b)
-				c.emit("b export", out)
-				desc += "E "
-				sawExport = true
-				if sq == nil {
-					fail("C06", "Export returned an error or panicked on a reachable builder state")
-				}
-			case 1:
-				i := c.rng.Range(-1, b.NumTxs())
-				r, err := b.FindTxShareRange(i)
-				c.emit(fmt.Sprintf("b txrange %d", i), rangeOutBare(r, err))
-				desc += "R "
-				sawExport = true
-				if sc.class == "" {
-					c.oracle()
-					fr, ferr := freshNow().FindTxShareRange(i)
-					if rangeOutBare(r, err) != rangeOutBare(fr, ferr) {
-						fail("C12", fmt.Sprintf("FindTxShareRange(%d) answers %s after this history; a fresh builder fed the same accepted appends answers %s", i, rangeOutBare(r, err), rangeOutBare(fr, ferr)))
-						fail("C14", "a query depends on the history of exports / queries / refused appends")
+			var accepted []genTx
+			est := refEst{}
+			desc := fmt.Sprintf("max=%d thr=%d ", sc.max, sc.thr)
+			sawRefusal, exportBetween, sawExport := false, false, false
+			fail := func(prop, what string) {
+				c.violate(prop, sc.class, what+" (history: "+trunc(desc, 300)+")", "", c.caseOps)
+			}
+			// what a fresh builder fed the appends accepted so far answers (reference for the queries)
+			freshNow := func() *square.Builder {
+				f, _ := square.NewBuilder(sc.max, sc.thr)
+				for _, t := range accepted {
+					if t.noBlobs {
+						f.AppendBlobTx(&tx.BlobTx{Tx: t.inner})
+					} else if t.isBlob {
+						btx, _, _ := tx.UnmarshalBlobTx(t.raw)
+						f.AppendBlobTx(btx)
+					} else {
+						f.AppendTx(t.raw)
 					}
 				}
-			case 2:
-				p, j := c.rng.Range(0, b.NumTxs()), c.rng.Range(-1, 3)
-				v, err := b.FindBlobStartingIndex(p, j)
-				c.emit(fmt.Sprintf("b blobidx %d %d", p, j), okOr(err, fmt.Sprintf("ok %d", v)))
-				desc += "I "
-				sawExport = true
-				if sc.class == "" {
-					c.oracle()
-					fv, ferr := freshNow().FindBlobStartingIndex(p, j)
-					if (err == nil) != (ferr == nil) || (err == nil && v != fv) {
-						fail("C04", fmt.Sprintf("FindBlobStartingIndex(%d, %d) answers %s after this history; a fresh builder fed the same accepted appends answers %s", p, j, okOr(err, fmt.Sprint(v)), okOr(ferr, fmt.Sprint(fv))))
-						fail("C14", "a query depends on the history of exports / queries / refused appends")
+				return f
+			}
+			query := func() {
+				switch c.rng.Intn(5) {
+				case 0:
+					sq, out := safeExport(b)
+					c.emit("b export", out)
+					desc += "E "
+					sawExport = true
+					if sq == nil {
+						fail("C06", "Export returned an error or panicked on a reachable builder state")
 					}
-				}
-			case 3:
-				p, j := c.rng.Range(0, b.NumTxs()), c.rng.Range(-1, 3)
-				v, err := b.BlobShareLength(p, j)
-				c.emit(fmt.Sprintf("b bloblen %d %d", p, j), okOr(err, fmt.Sprintf("ok %d", v)))
-				desc += "L "
-				if err == nil && sc.class == "" {
-					// C13: the predicted share count of an accepted blob is what the encoder produces
-					var keptBlobTxs []genTx
-					nOrd := 0
-					for _, a := range accepted {
-						if a.isBlob {
-							keptBlobTxs = append(keptBlobTxs, a)
-						} else {
-							nOrd++
+				case 1:
+					i := c.rng.Range(-1, b.NumTxs())
+					r, err := b.FindTxShareRange(i)
+					c.emit(fmt.Sprintf("b txrange %d", i), rangeOutBare(r, err))
+					desc += "R "
+					sawExport = true
+					if sc.class == "" {
+						c.oracle()
+						fr, ferr := freshNow().FindTxShareRange(i)
+						if rangeOutBare(r, err) != rangeOutBare(fr, ferr) {
+							fail("C12", fmt.Sprintf("FindTxShareRange(%d) answers %s after this history; a fresh builder fed the same accepted appends answers %s", i, rangeOutBare(r, err), rangeOutBare(fr, ferr)))
+							fail("C14", "a query depends on the history of exports / queries / refused appends")
 						}
 					}
-					if q := p - nOrd; q >= 0 && q < len(keptBlobTxs) && j >= 0 && j < len(keptBlobTxs[q].blobs) {
-						if bo, berr := keptBlobTxs[q].blobs[j].blob(); berr == nil {
-							if sh, serr := bo.ToShares(); serr == nil {
-								c.oracle()
-								if v != len(sh) {
-									fail("C13", fmt.Sprintf("BlobShareLength(%d, %d) predicts %d shares for a %d-byte version-%d blob; the encoder produces %d", p, j, v, len(bo.Data()), bo.ShareVersion(), len(sh)))
+				case 2:
+					p, j := c.rng.Range(0, b.NumTxs()), c.rng.Range(-1, 3)
+					v, err := b.FindBlobStartingIndex(p, j)
+					c.emit(fmt.Sprintf("b blobidx %d %d", p, j), okOr(err, fmt.Sprintf("ok %d", v)))
+					desc += "I "
+					sawExport = true
+					if sc.class == "" {
+						c.oracle()
+						fv, ferr := freshNow().FindBlobStartingIndex(p, j)
+						if (err == nil) != (ferr == nil) || (err == nil && v != fv) {
+							fail("C04", fmt.Sprintf("FindBlobStartingIndex(%d, %d) answers %s after this history; a fresh builder fed the same accepted appends answers %s", p, j, okOr(err, fmt.Sprint(v)), okOr(ferr, fmt.Sprint(fv))))
+							fail("C14", "a query depends on the history of exports / queries / refused appends")
+						}
+					}
+				case 3:
+					p, j := c.rng.Range(0, b.NumTxs()), c.rng.Range(-1, 3)
+					v, err := b.BlobShareLength(p, j)
+					c.emit(fmt.Sprintf("b bloblen %d %d", p, j), okOr(err, fmt.Sprintf("ok %d", v)))
+					desc += "L "
+					if err == nil && sc.class == "" {
+						// C13: the predicted share count of an accepted blob is what the encoder produces
+						var keptBlobTxs []genTx
+						nOrd := 0
+						for _, a := range accepted {
+							if a.isBlob {
+								keptBlobTxs = append(keptBlobTxs, a)
+							} else {
+								nOrd++
+							}
+						}
+						if q := p - nOrd; q >= 0 && q < len(keptBlobTxs) && j >= 0 && j < len(keptBlobTxs[q].blobs) {
+							if bo, berr := keptBlobTxs[q].blobs[j].blob(); berr == nil {
+								if sh, serr := bo.ToShares(); serr == nil {
+									c.oracle()
+									if v != len(sh) {
+										fail("C13", fmt.Sprintf("BlobShareLength(%d, %d) predicts %d shares for a %d-byte version-%d blob; the encoder produces %d", p, j, v, len(bo.Data()), bo.ShareVersion(), len(sh)))
+									}
 								}
 							}
 						}
 					}
+				default:
+					i := c.rng.Range(-1, b.NumTxs())
+					w, err := b.GetWrappedPFB(i)
+					out := "err"
+					if err == nil {
+						out = fmt.Sprintf("ok tx=%d:%s idx=[%s]", len(w.Tx), dig(w.Tx), natList(w.ShareIndexes))
+						sawExport = true
+					}
+					c.emit(fmt.Sprintf("b wpfb %d", i), out)
+					desc += "W "
 				}
-			default:
-				i := c.rng.Range(-1, b.NumTxs())
-				w, err := b.GetWrappedPFB(i)
-				out := "err"
-				if err == nil {
-					out = fmt.Sprintf("ok tx=%d:%s idx=[%s]", len(w.Tx), dig(w.Tx), natList(w.ShareIndexes))
+			}
+			for _, t := range sc.txs {
+				for c.rng.Chance(1, 3) {
+					query()
+				}
+				before := b.CurrentSize()
+				var beforeSq string
+				checkUnchanged := c.rng.Chance(1, 2)
+				if checkUnchanged {
+					_, beforeSq = safeExport(b)
+					c.emit("b export", beforeSq)
 					sawExport = true
 				}
-				c.emit(fmt.Sprintf("b wpfb %d", i), out)
-				desc += "W "
+				var acc bool
+				kind := "tx"
+				if t.isBlob {
+					kind = "btx"
+					btx, _, _ := tx.UnmarshalBlobTx(t.raw)
+					if c.rng.Bool() {
+						// the in-memory route: the caller's own Blob objects (not re-decoded from bytes), e.g. with the
+						// exact signer slice they were created with
+						mem := &tx.BlobTx{Tx: btx.Tx}
+						okMem := true
+						for _, sp := range t.blobs {
+							bo, err := sp.blob()
+							if err != nil {
+								okMem = false
+								break
+							}
+							mem.Blobs = append(mem.Blobs, bo)
+						}
+						if okMem && len(mem.Blobs) == len(btx.Blobs) {
+							btx = mem
+						}
+					}
+					acc = b.AppendBlobTx(btx)
+				} else {
+					acc = b.AppendTx(t.raw)
+				}
+				c.emit("b tx "+hx(t.raw), fmt.Sprintf("%s acc=%s size=%d", kind, b2s(acc), b.CurrentSize()))
+				c.oracle()
+				ne := est.with(t, sc.thr)
+				wantAcc := ne.total() <= sc.max*sc.max
+				if acc != wantAcc {
+					fail("C06", fmt.Sprintf("append of a %d-byte %s was accepted=%v, but the worst-case estimate with it is %d for a maximum of %d shares", len(t.raw), kind, acc, ne.total(), sc.max*sc.max))
+				}
+				if acc {
+					accepted = append(accepted, t)
+					est = ne
+					desc += fmt.Sprintf("+%s%d ", kind, len(t.raw))
+					if sawExport {
+						exportBetween = true
+					}
+					if b.CurrentSize() != ne.total() {
+						fail("C06", fmt.Sprintf("running estimate is %d after the append, the closed-form worst case is %d", b.CurrentSize(), ne.total()))
+					}
+					if t.isBlob && sc.class == "" && !t.noBlobs {
+						// C13: for every blob just accepted, the predicted share count is what the encoder produces
+						nOrd, nBlobTx := 0, 0
+						for _, a := range accepted {
+							if a.isBlob {
+								nBlobTx++
+							} else {
+								nOrd++
+							}
+						}
+						for j, sp := range t.blobs {
+							bo, berr := sp.blob()
+							if berr != nil {
+								continue
+							}
+							sh, serr := bo.ToShares()
+							v, lerr := b.BlobShareLength(nOrd+nBlobTx-1, j)
+							c.oracle()
+							if serr == nil && lerr == nil && v != len(sh) {
+								fail("C13", fmt.Sprintf("the builder predicts %d shares for a %d-byte version-%d blob (signer of %d bytes, nil=%v); the encoder produces %d", v, len(bo.Data()), bo.ShareVersion(), len(bo.Signer()), bo.Signer() == nil, len(sh)))
+							}
+						}
+					}
+					if t.isBlob && sc.class == "" && c.rng.Chance(1, 12) {
+						// a hand-built blob transaction WITHOUT blobs (or nil), offered right after an accepted one: whatever
+						// the builder answers, it must answer the same as a fresh builder replaying the accepted appends, and
+						// the rest of this history is checked by the Go-side oracles only (there is no byte encoding of such
+						// a transaction to send to the model)
+						c.goOnly = true
+						z := genTx{isBlob: true, noBlobs: true, inner: c.rng.Bytes(c.rng.Range(1, 60))}
+						zacc := b.AppendBlobTx(&tx.BlobTx{Tx: z.inner})
+						desc += fmt.Sprintf("Z(no blobs, acc=%v) ", zacc)
+						ref := freshNow()
+						if racc := ref.AppendBlobTx(&tx.BlobTx{Tx: z.inner}); racc != zacc || ref.CurrentSize() != b.CurrentSize() {
+							fail("C14", fmt.Sprintf("a blob transaction without blobs is answered acc=%v size=%d after this history, acc=%v size=%d by a fresh builder fed the same accepted appends", zacc, b.CurrentSize(), racc, ref.CurrentSize()))
+							fail("C06", "the running estimate after offering a blob transaction without blobs differs from a fresh builder's")
+						}
+						if zacc {
+							accepted = append(accepted, z)
+							est = est.with(z, sc.thr)
+						}
+					}
+				} else {
+					sawRefusal = true
+					desc += fmt.Sprintf("-%s%d ", kind, len(t.raw))
+					if b.CurrentSize() != before {
+						fail("C06", "a refused append changed the running estimate")
+					}
+					if checkUnchanged {
+						_, after := safeExport(b)
+						c.emit("b export", after)
+						if after != beforeSq {
+							fail("C06", "a refused append changed the exported square")
+						}
+					}
+				}
+				if b.CurrentSize() > sc.max*sc.max {
+					fail("C06", fmt.Sprintf("running estimate %d exceeds maximum squared %d", b.CurrentSize(), sc.max*sc.max))
+				}
 			}
-		}
-		for _, t := range sc.txs {
-			for c.rng.Chance(1, 3) {
+			for c.rng.Chance(1, 2) {
 				query()
 			}
-			before := b.CurrentSize()
-			var beforeSq string
-			checkUnchanged := c.rng.Chance(1, 2)
-			if checkUnchanged {
-				_, beforeSq = safeExport(b)
-				c.emit("b export", beforeSq)
-				sawExport = true
-			}
-			var acc bool
-			kind := "tx"
-			if t.isBlob {
-				kind = "btx"
-				btx, _, _ := tx.UnmarshalBlobTx(t.raw)
-				if c.rng.Bool() {
-					// the in-memory route: the caller's own Blob objects (not re-decoded from bytes), e.g. with the
-					// exact signer slice they were created with
-					mem := &tx.BlobTx{Tx: btx.Tx}
-					okMem := true
-					for _, sp := range t.blobs {
-						bo, err := sp.blob()
-						if err != nil {
-							okMem = false
-							break
-						}
-						mem.Blobs = append(mem.Blobs, bo)
-					}
-					if okMem && len(mem.Blobs) == len(btx.Blobs) {
-						btx = mem
-					}
-				}
-				acc = b.AppendBlobTx(btx)
-			} else {
-				acc = b.AppendTx(t.raw)
-			}
-			c.emit("b tx "+hx(t.raw), fmt.Sprintf("%s acc=%s size=%d", kind, b2s(acc), b.CurrentSize()))
+			final, fout := safeExport(b)
+			c.emit("b export", fout)
+			c.emit("b info", fmt.Sprintf("size=%d txs=%d pfbs=%d empty=%s", b.CurrentSize(), b.NumTxs()-b.NumPFBs(), b.NumPFBs(), b2s(b.IsEmpty())))
 			c.oracle()
-			ne := est.with(t, sc.thr)
-			wantAcc := ne.total() <= sc.max*sc.max
-			if acc != wantAcc {
-				fail("C06", fmt.Sprintf("append of a %d-byte %s was accepted=%v, but the worst-case estimate with it is %d for a maximum of %d shares", len(t.raw), kind, acc, ne.total(), sc.max*sc.max))
+			if final == nil {
+				fail("C06", "final Export returned an error or panicked")
+				return
 			}
-			if acc {
-				accepted = append(accepted, t)
-				est = ne
-				desc += fmt.Sprintf("+%s%d ", kind, len(t.raw))
-				if sawExport {
-					exportBetween = true
+			{
+				if occ := occupied(final); occ > b.CurrentSize() && len(accepted) > 0 {
+					fail("C06", fmt.Sprintf("%d shares are occupied but the running estimate is only %d", occ, b.CurrentSize()))
 				}
-				if b.CurrentSize() != ne.total() {
-					fail("C06", fmt.Sprintf("running estimate is %d after the append, the closed-form worst case is %d", b.CurrentSize(), ne.total()))
-				}
-				if t.isBlob && sc.class == "" && !t.noBlobs {
-					// C13: for every blob just accepted, the predicted share count is what the encoder produces
-					nOrd, nBlobTx := 0, 0
-					for _, a := range accepted {
-						if a.isBlob {
-							nBlobTx++
-						} else {
-							nOrd++
-						}
-					}
-					for j, sp := range t.blobs {
-						bo, berr := sp.blob()
-						if berr != nil {
-							continue
-						}
-						sh, serr := bo.ToShares()
-						v, lerr := b.BlobShareLength(nOrd+nBlobTx-1, j)
-						c.oracle()
-						if serr == nil && lerr == nil && v != len(sh) {
-							fail("C13", fmt.Sprintf("the builder predicts %d shares for a %d-byte version-%d blob (signer of %d bytes, nil=%v); the encoder produces %d", v, len(bo.Data()), bo.ShareVersion(), len(bo.Signer()), bo.Signer() == nil, len(sh)))
-						}
-					}
-				}
-				if t.isBlob && sc.class == "" && c.rng.Chance(1, 12) {
-					// a hand-built blob transaction WITHOUT blobs (or nil), offered right after an accepted one: whatever
-					// the builder answers, it must answer the same as a fresh builder replaying the accepted appends, and
-					// the rest of this history is checked by the Go-side oracles only (there is no byte encoding of such
-					// a transaction to send to the model)
-					c.goOnly = true
-					z := genTx{isBlob: true, noBlobs: true, inner: c.rng.Bytes(c.rng.Range(1, 60))}
-					zacc := b.AppendBlobTx(&tx.BlobTx{Tx: z.inner})
-					desc += fmt.Sprintf("Z(no blobs, acc=%v) ", zacc)
-					ref := freshNow()
-					if racc := ref.AppendBlobTx(&tx.BlobTx{Tx: z.inner}); racc != zacc || ref.CurrentSize() != b.CurrentSize() {
-						fail("C14", fmt.Sprintf("a blob transaction without blobs is answered acc=%v size=%d after this history, acc=%v size=%d by a fresh builder fed the same accepted appends", zacc, b.CurrentSize(), racc, ref.CurrentSize()))
-						fail("C06", "the running estimate after offering a blob transaction without blobs differs from a fresh builder's")
-					}
-					if zacc {
-						accepted = append(accepted, z)
-						est = est.with(z, sc.thr)
-					}
-				}
-			} else {
-				sawRefusal = true
-				desc += fmt.Sprintf("-%s%d ", kind, len(t.raw))
-				if b.CurrentSize() != before {
-					fail("C06", "a refused append changed the running estimate")
-				}
-				if checkUnchanged {
-					_, after := safeExport(b)
-					c.emit("b export", after)
-					if after != beforeSq {
-						fail("C06", "a refused append changed the exported square")
+				if len(accepted) > 0 {
+					if side := final.Size(); side != int(refMinSide(uint64(b.CurrentSize()))) || side > sc.max {
+						fail("C06", fmt.Sprintf("square side %d is not the minimal side for the estimate %d (maximum %d)", side, b.CurrentSize(), sc.max))
 					}
 				}
 			}
-			if b.CurrentSize() > sc.max*sc.max {
-				fail("C06", fmt.Sprintf("running estimate %d exceeds maximum squared %d", b.CurrentSize(), sc.max*sc.max))
-			}
-		}
-		for c.rng.Chance(1, 2) {
-			query()
-		}
-		final, fout := safeExport(b)
-		c.emit("b export", fout)
-		c.emit("b info", fmt.Sprintf("size=%d txs=%d pfbs=%d empty=%s", b.CurrentSize(), b.NumTxs()-b.NumPFBs(), b.NumPFBs(), b2s(b.IsEmpty())))
-		c.oracle()
-		if final == nil {
-			fail("C06", "final Export returned an error or panicked")
-			continue
-		}
-		{
-			if occ := occupied(final); occ > b.CurrentSize() && len(accepted) > 0 {
-				fail("C06", fmt.Sprintf("%d shares are occupied but the running estimate is only %d", occ, b.CurrentSize()))
-			}
-			if len(accepted) > 0 {
-				if side := final.Size(); side != int(refMinSide(uint64(b.CurrentSize()))) || side > sc.max {
-					fail("C06", fmt.Sprintf("square side %d is not the minimal side for the estimate %d (maximum %d)", side, b.CurrentSize(), sc.max))
+			// C14: a fresh builder fed only the accepted appends
+			fresh, _ := square.NewBuilder(sc.max, sc.thr)
+			for _, t := range accepted {
+				if t.noBlobs {
+					fresh.AppendBlobTx(&tx.BlobTx{Tx: t.inner})
+				} else if t.isBlob {
+					btx, _, _ := tx.UnmarshalBlobTx(t.raw)
+					fresh.AppendBlobTx(btx)
+				} else {
+					fresh.AppendTx(t.raw)
 				}
 			}
-		}
-		// C14: a fresh builder fed only the accepted appends
-		fresh, _ := square.NewBuilder(sc.max, sc.thr)
-		for _, t := range accepted {
-			if t.noBlobs {
-				fresh.AppendBlobTx(&tx.BlobTx{Tx: t.inner})
-			} else if t.isBlob {
-				btx, _, _ := tx.UnmarshalBlobTx(t.raw)
-				fresh.AppendBlobTx(btx)
-			} else {
-				fresh.AppendTx(t.raw)
+			_, want := safeExport(fresh)
+			if want != fout {
+				fail("C14", "the final export differs from the export of a fresh builder fed only the accepted appends")
+				fail("C07", "after this history the exported square is not the specified layout of the accepted appends (= what a fresh builder / Construct produces, which the BUILDER stream compares with the executable Spec)")
 			}
-		}
-		_, want := safeExport(fresh)
-		if want != fout {
-			fail("C14", "the final export differs from the export of a fresh builder fed only the accepted appends")
-			fail("C07", "after this history the exported square is not the specified layout of the accepted appends (= what a fresh builder / Construct produces, which the BUILDER stream compares with the executable Spec)")
-		}
-		if sawRefusal || exportBetween {
-			c.nontrivial(desc)
-		}
-		if sawRefusal {
-			c.dist("has-refusal")
-		}
-		if exportBetween {
-			c.dist("export-between-appends")
-		}
+			if sawRefusal || exportBetween {
+				c.nontrivial(desc)
+			}
+			if sawRefusal {
+				c.dist("has-refusal")
+			}
+			if exportBetween {
+				c.dist("export-between-appends")
+			}
+		}()
 	}
 }
 
